@@ -8,7 +8,8 @@ set -e
 H=$VERIF/harness/c19
 INC="-I$REPO -I$MC -I$H"
 A="-g -fsanitize=address -fno-omit-frame-pointer -ftrivial-auto-var-init=pattern $INC"
-G="-O2 -g -DC19_GUARD -ftrivial-auto-var-init=pattern $INC"
+# the guard build doubles as the release / unsigned-char variant: -DNDEBUG, plain char unsigned (ARM, PowerPC, RISC-V)
+G="-O2 -g -DC19_GUARD -DNDEBUG -funsigned-char -ftrivial-auto-var-init=pattern $INC"
 LIBCXX="igris/util/string.cpp igris/string/replace.cpp"
 LIBC="igris/string/replace_substrings.c igris/string/memmem.c igris/shell/mshell.c igris/shell/rshell.c"
 AO=(); GO=()
